@@ -4,8 +4,30 @@
 # 2. stores it under /verif/seeded/<seed-id>/, 3. applies it to /repo, runs the quick checks, undoes it.
 set -u
 export GOFLAGS=-mod=mod GOPROXY=off GOSUMDB=off GOTOOLCHAIN=local
+# SEED_PHASE=confirm does step 1+2 only (safe to run for several worktrees in parallel); SEED_PHASE=check does step 3 only
+# (serial: it patches /repo) and needs only /verif/seeded/<seed-id>/patch.diff.
 id=$1; wt=$2; shift 2
 out=/verif/seeded/$id; mkdir -p $out
+phase=${SEED_PHASE:-all}
+if [ $phase = check ]; then
+  cd /verif
+  git -C /repo apply $out/patch.diff || { echo "patch does not apply to /repo"; exit 2; }
+  results=""
+  for p in "$@"; do
+    VERIF_SEED=${VERIF_SEED:-4242} ./check $p > $out/check_$p.txt 2>&1; rc=$?
+    line=$(grep -m1 "^VIOLATION" $out/check_$p.txt)
+    oracle=$(grep -m1 "^violation:" $out/check_$p.txt | cut -c1-200)
+    echo "check $id $p: exit=$rc $line | $oracle"
+    results="$results $p:exit$rc"
+  done
+  git -C /repo checkout -- .
+  python3 - "$out" "$results" <<'PY'
+import json,sys,os
+out,res=sys.argv[1:3]
+f=os.path.join(out,'meta.json'); m=json.load(open(f)); m['checks_run']=res.split(); json.dump(m,open(f,'w'),indent=1)
+PY
+  exit 0
+fi
 cd $wt || exit 2
 demo_cmd=$(grep -m1 -E "go test" _seed/demo_cmd.txt | sed 's/^[^g]*\(go test.*\)$/\1/' | sed 's/`//g')
 demo_file=$(git status --porcelain | grep '^??' | grep -v _seed | awk '{print $2}' | head -1)
@@ -18,12 +40,12 @@ git apply -R _seed/patch.diff
 if timeout 600 bash -c "$demo_cmd" > $out/demo_without_patch.txt 2>&1; then r_without=PASS; else r_without=FAIL; fi
 git apply _seed/patch.diff
 mkdir -p /tmp/seedwt/.aside; mv $demo_file /tmp/seedwt/.aside/$id.demo.go
-if timeout 900 go test -vet=off -count=1 ./... > $out/suite_with_patch.txt 2>&1; then r_suite=ok; fi
+if timeout 1800 go test -vet=off -count=1 ./... > $out/suite_with_patch.txt 2>&1; then r_suite=ok; fi
 mv /tmp/seedwt/.aside/$id.demo.go $demo_file
 cp _seed/patch.diff $out/patch.diff; cp $demo_file $out/; cp _seed/notes.md $out/notes.md 2>/dev/null; echo "$demo_cmd (demo file goes to $demo_file)" > $out/demo_cmd.txt
 echo "confirm: build=$r_build demo_with_patch=$r_with demo_without_patch=$r_without suite_with_patch=$r_suite"
 results=""
-if [ $r_build = ok ] && [ $r_with = FAIL ] && [ $r_without = PASS ] && [ $r_suite = ok ]; then
+if [ $phase = all ] && [ $r_build = ok ] && [ $r_with = FAIL ] && [ $r_without = PASS ] && [ $r_suite = ok ]; then
   V=${VSNAP:-/verif}
   cd $V
   git -C /repo apply $out/patch.diff || { echo "patch does not apply to /repo"; exit 2; }
